@@ -451,6 +451,9 @@ func CheckC09(run *ev.Run) {
 					vals[k] = v
 				}
 				vals[f] = payload
+				if f == "basePath" {
+					vals[f] = "/" + payload // a base path starts with a slash; the rest is free
+				}
 				spec := TextSpec(vals)
 				root, trees, gerr := renderBoth("c09h", spec)
 				run.Case(fmt.Sprintf("%s|%s|%d", f, ctx, pi))
